@@ -116,7 +116,7 @@ def gen(family, seedt, nmax):
         else:
             rho = dense.random_mixed(rng, n)
         c["rho"] = rho
-        subsets = [list(s) for k in range(1, n) for s in itertools.combinations(range(n), k)]
+        subsets = [list(s) for k in range(1, n + 1) for s in itertools.combinations(range(n), k)]      # incl. keeping everything
         c["keep"] = subsets[int(rng.integers(len(subsets)))]
         c["all_subsets"] = subsets
     else:
